@@ -548,7 +548,7 @@ func c14Changed(u fw.Unit) fw.Result {
 	}
 	// a wrapper whose first call is NULL on some rows (lag on a partition's first rows) while a later call is
 	// cumulative: the cumulative call must consume every row, also those on which the wrapper's value is NULL
-	q5 := "SELECT k, (lag(v) - acc_avg(v)) OVER (PARTITION BY k) AS d1, (lag(v, 2) + acc_count(v)) OVER (PARTITION BY k) AS d2, (lag(v) * 0 + acc_sum(v) - acc_min(v)) OVER (PARTITION BY k) AS d3 FROM stream"
+	q5 := "SELECT k, (lag(v) - acc_avg(v)) OVER (PARTITION BY k) AS d1, (lag(v, 2) + acc_count(v)) OVER (PARTITION BY k) AS d2, (lag(v) * 0 + acc_sum(v) - acc_min(v)) OVER (PARTITION BY k) AS d3, (lag(vLoad) - acc_avg(vLoad)) OVER (PARTITION BY devId) AS d4 FROM stream"
 	for L := 1; L <= 5; L++ {
 		sequences(L, 6, func(ix []int) {
 			idx++
@@ -557,7 +557,8 @@ func c14Changed(u fw.Unit) fw.Result {
 			}
 			var rows []Row
 			for i, x := range ix {
-				rows = append(rows, Row{"k": []string{"a", "b"}[x/3], "id": i + 1, "v": []float64{1, 2, 4}[x%3]})
+				// vLoad / devId: the same value and key under names with upper-case letters
+				rows = append(rows, Row{"k": []string{"a", "b"}[x/3], "devId": []string{"a", "b"}[x/3], "id": i + 1, "v": []float64{1, 2, 4}[x%3], "vLoad": []float64{1, 2, 4}[x%3]})
 			}
 			res, execErr, status, _ := syncEval(q5, rows)
 			a.r.Evaluations++
@@ -598,7 +599,7 @@ func c14Changed(u fw.Unit) fw.Result {
 					x, ok := num(got)
 					return ok && math.Abs(x-want.(float64)) < 1e-9
 				}
-				if g == nil || !same(g["d1"], w1) || !same(g["d2"], w2) || !same(g["d3"], w3) {
+				if g == nil || !same(g["d1"], w1) || !same(g["d2"], w2) || !same(g["d3"], w3) || !same(g["d4"], w1) {
 					a.fail("C14|wrapper-null-first-call", fmt.Sprintf("%s: row %d gives %s, reference d1=%v d2=%v d3=%v; rows %s", q5, i+1, js(g), w1, w2, w3, js(rows)), cs, []any{w1, w2, w3}, g)
 					return
 				}
